@@ -121,6 +121,8 @@ struct nni_pipe {
 	nni_reap_node      p_reap;
 	nni_refcnt         p_refcnt;
 	nng_pipe_ev        p_last_event;
+	bool               p_starting;  // in nni_pipe_start (pipes_lk)
+	bool               p_reap_wait; // closed meanwhile (pipes_lk)
 
 #ifdef NNG_ENABLE_STATS
 	nni_stat_item st_root;
@@ -157,5 +159,7 @@ extern bool nni_pipe_is_closed(nni_pipe *);
 extern void nni_pipe_run_cb(nni_pipe *, nng_pipe_ev);
 
 extern void nni_pipe_start(nni_pipe *);
+extern void nni_pipe_start_begin(nni_pipe *);
+extern void nni_pipe_start_end(nni_pipe *);
 
 #endif // CORE_SOCKIMPL_H
